@@ -1,0 +1,6 @@
+//go:build !verif
+
+package kgo
+
+// verifBusyYield is a no-op unless built with the "verif" tag (see verif_hooks.go).
+func verifBusyYield() {}
